@@ -17,6 +17,8 @@ def field_contracts(base, chk):
 
 def run(chk):
     prog, base = setup(chk)
+    from .common import state_shape
+    state_shape(chk, prog)
     chk.bounds = ["no bound on inputs: all valid points in every projective representation (symbolic X,Y,Z,T with Z != 0, curve equation and XY = ZT as hypotheses), every limb representation within the invariant (via the field contracts)",
                   "aliasing patterns: distinct, zero-value receiver, v=p, v=q, p=q, v=p=q"]
     chk.outside = ["Bernstein-Lange completeness: the step 'a vanishing denominator would make d a square' is paper reasoning; its two polynomial lemmas and the Euler criterion for the real d are checked",
